@@ -33,7 +33,7 @@ FEATURES = "std,help,usage,error-context,wrap_help,env"
 HT = "help_template::<impl at clap_builder/src/output/help_template.rs"
 
 
-CRATE_FEATURES = {"clap_builder": ["--no-default-features", "--features", FEATURES], "clap_complete": ["--features", "unstable-dynamic"]}
+CRATE_FEATURES = {"clap_builder": ["--no-default-features", "--features", FEATURES], "clap_complete": ["--features", "unstable-dynamic"], "clap_mangen": []}
 
 
 def dump_mir(crate="clap_builder"):
@@ -326,6 +326,8 @@ def run(pid, tier, seed, a):
         for ob, q, s in sat_obs:
             if ob["target"] == "complete_iteration":
                 rp = replay_c18(pid, ctx, ob, q, solver, a)
+            elif ob["target"] == "mangen":
+                rp = replay_native_crate(pid, ctx, ob, q, solver, "c19", "C19-REPLAY")
             elif ob["kind"] == "spec" or ob["target"] in ("id_closures_total",):
                 rp = replay_spec(pid, ctx, ob, q, solver, a)
             else:
@@ -498,6 +500,42 @@ def replay_spec(pid, ctx, ob, q, solver, a):
         f.write("# native realisation through the public API (harness/native_spec.rs):\n" + "\n".join(lines) + "\n")
         f.write("# re-run: cd /repo/clap_builder && RUSTFLAGS='--cfg clap_verif' CLAP_VERIF_DIR=/verif/harness VERIF_SPEC_TARGET=" + ob["target"] +
                 " cargo test --lib --no-default-features --features std,help,usage,error-context verif_harness::native_spec -- --nocapture\n")
+    return res
+
+
+def replay_native_crate(pid, ctx, ob, q, solver, crate, marker):
+    """Run /verif/native/<crate> (dev + release) and report its `<marker> MISMATCH` lines."""
+    out_dir = os.path.join(os.environ.get("VERIF_REPLAY_DIR", os.path.join(VERIF, "replays")), pid)
+    os.makedirs(out_dir, exist_ok=True)
+    path = os.path.join(out_dir, f"{ob['target']}.txt")
+    if crate not in _NATIVE_CACHE:
+        src = os.path.join(SCRATCH, "%s-native-%d" % (crate, os.getpid()))
+        shutil.rmtree(src, ignore_errors=True)
+        shutil.copytree(os.path.join(VERIF, "native", crate), src)
+        if REPO != "/repo":
+            t = open(os.path.join(src, "Cargo.toml")).read().replace('"/repo/', '"%s/' % REPO).replace('path = "/repo"', 'path = "%s"' % REPO)
+            open(os.path.join(src, "Cargo.toml"), "w").write(t)
+        env = dict(os.environ, CARGO_NET_OFFLINE="true", CARGO_TARGET_DIR=os.path.join(src, "target"))
+        env.pop("RUSTFLAGS", None)
+        lines = []
+        for prof in ([], ["--release"]):
+            try:
+                p = subprocess.run(["cargo", "run", "--offline", "-q"] + prof, cwd=src, env=env, capture_output=True, text=True, timeout=1800)
+                out = p.stdout + p.stderr
+            except subprocess.TimeoutExpired:
+                out = "timeout"
+            got = re.findall(marker + r" .*", out)
+            if not any("DONE" in g for g in got):
+                got.append(marker + " NATIVE RUN DID NOT COMPLETE: " + out[-300:].replace("\n", " "))
+            lines += [("release: " if prof else "dev: ") + g for g in got]
+        shutil.rmtree(src, ignore_errors=True)
+        _NATIVE_CACHE[crate] = lines
+    lines = _NATIVE_CACHE[crate]
+    mism = [l for l in lines if "MISMATCH" in l or "PANIC" in l]
+    res = {"reproduced": bool(mism), "path": path, "member": mism[0] if mism else None,
+           "note": "" if mism else "native family reports no deviation: " + "; ".join(l for l in lines if "DONE" in l or "NOT COMPLETE" in l)[:200]}
+    with open(path, "w") as f:
+        f.write(f"# {pid}: clause violated in the encoding: {ob['msg']}\n# native family /verif/native/{crate} (cargo run):\n" + "\n".join(lines[:40]) + "\n")
     return res
 
 
